@@ -209,7 +209,20 @@ class Prog:
         self.file = SimFile(sim, tty=True)
         bt = case["base_theme"]
         self.Style, self.Theme = Style, Theme
-        _pristine_defaults()
+        pristine = _pristine_defaults()
+        if dict(DEFAULT_STYLES) != pristine:
+            # an earlier run in this process polluted the global defaults (it was reported for it):
+            # put them back, so that this run does not depend on its predecessors and replays alone
+            DEFAULT_STYLES.clear()
+            DEFAULT_STYLES.update(pristine)
+            try:
+                from rich import themes as _themes
+
+                if hasattr(_themes.DEFAULT, "styles") and _themes.DEFAULT.styles is not DEFAULT_STYLES:
+                    _themes.DEFAULT.styles.clear()
+                    _themes.DEFAULT.styles.update(pristine)
+            except Exception:
+                pass
         self.defaults = dict(DEFAULT_STYLES)
         base = self._map(bt) if bt else dict(self.defaults)
         self.console = Console(file=self.file, width=40, height=10, force_terminal=True, color_system="truecolor", _environ={},
